@@ -54,6 +54,7 @@ type Exec struct {
 	ghostLog []string
 	allocs   []allocRec
 	hasFrame bool
+	assumed  map[int]bool
 	frameLocs []Loc
 	frameProps []string
 }
@@ -114,6 +115,13 @@ func (ex *Exec) assume(t *Term) {
 	if t == True {
 		return
 	}
+	if ex.assumed == nil {
+		ex.assumed = map[int]bool{}
+	}
+	if ex.assumed[t.id] {
+		return
+	}
+	ex.assumed[t.id] = true
 	ex.events = append(ex.events, Event{Assume: t})
 }
 
@@ -136,6 +144,15 @@ func (fr *Frame) oblG(guard *Term, kind string, pos token.Pos, goal *Term, props
 	if pos.IsValid() {
 		o.Snip = prog.snippet(pos)
 	}
+	fr.ex.oblige(o)
+}
+
+// oblS: obligation identified by a contract source text rather than a position.
+func (fr *Frame) oblS(guard *Term, kind, src string, goal *Term, props ...string) {
+	if fr.silent {
+		return
+	}
+	o := &Obl{Fn: funcName(fr.ex.top), Kind: kind, Guard: guard, Goal: goal, Props: props, Via: fr.chain, Snip: src}
 	fr.ex.oblige(o)
 }
 
@@ -252,8 +269,23 @@ func closedImpls(T types.Type) []types.Type {
 
 // ---------- strings ----------
 
-func StrLen(s *Term) *Term { return UF("str_len", BV(64), s) }
+func StrLen(s *Term) *Term {
+	if s == EmptyStr {
+		return BVLit(0, 64)
+	}
+	if k, ok := strByTerm[s.id]; ok {
+		UF("str_len", BV(64), s) // keep the symbol declared
+		return BVLit(uint64(len(k)), 64)
+	}
+	return UF("str_len", BV(64), s)
+}
 func StrAt(s, i *Term) *Term {
+	if k, ok := strByTerm[s.id]; ok {
+		if iv, ok := i.BVVal(); ok && iv < uint64(len(k)) {
+			UF("str_at", BV(8), s, i)
+			return BVLit(uint64(k[iv]), 8)
+		}
+	}
 	return UF("str_at", BV(8), s, i)
 }
 
@@ -594,7 +626,7 @@ func (fr *Frame) enterLoop(h *ssa.BasicBlock, li *loopInfoT, cur *State) *State 
 	reachB := fr.reach[h]
 	// 1. invariants on entry
 	for _, inv := range fr.loopInvariants(lc, cur, nil) {
-		fr.oblG(reachB, "inv.entry", h.Instrs[0].Pos(), inv.t, inv.props...)
+		fr.oblS(reachB, "inv.entry", inv.src, inv.t, inv.props...)
 	}
 	// 2. havoc
 	hst := cur.clone()
@@ -663,7 +695,7 @@ func (fr *Frame) backEdge(from, h *ssa.BasicBlock, cond *Term, st *State) {
 		over[phi] = fr.val(phi.Edges[pi])
 	}
 	for _, inv := range fr.loopInvariants(lc, st, over) {
-		fr.oblG(cond, "inv.preserved", from.Instrs[len(from.Instrs)-1].Pos(), inv.t, inv.props...)
+		fr.oblS(cond, "inv.preserved", inv.src, inv.t, inv.props...)
 	}
 	for _, name := range lc.framed {
 		cur := st.get(name, memArrays[name])
@@ -972,5 +1004,8 @@ func (ex *Exec) frameFormula(name string, cur *Term) *Term {
 		}
 	}
 	sel := App("select", srt.Elem, cur, r)
-	return Forall([]*Term{r}, Or(append(allowed, Eq(sel, Select(ini, r)))...), sel)
+	if patternOK(sel) {
+		return Forall([]*Term{r}, Or(append(allowed, Eq(sel, Select(ini, r)))...), sel)
+	}
+	return Forall([]*Term{r}, Or(append(allowed, Eq(sel, Select(ini, r)))...))
 }
